@@ -92,6 +92,11 @@ Cur0 == [on |-> FALSE, wf |-> FALSE, p |-> T!Pkt0, cls |-> "any", need |-> FALSE
 Closable == ~(cur.on /\ ~cur.got /\ cur.cls = "out")
 Closed == IF cur.on /\ ~cur.got /\ cur.wf /\ sync /\ ~cur.fil THEN T!ANext(a, cur.p, T!NoOut) ELSE a
 
+\* encapsulation side.  al = FALSE: the access units are NOT aligned with the PES packets (mode E, align=0): the
+\* octets of an access unit that do not fill a TS packet travel at the head of the next PES.  Then the statement
+\* is about the STREAM: allb = every access unit octet given so far, starts[k] = offset of access unit k in it,
+\* us[k] = its dates, pos = octets that came out, k = PES packets begun
+Enc0 == [pid |-> 0, cc |-> 0, pids |-> {}, al |-> TRUE, allb |-> <<>>, starts |-> <<>>, us |-> <<>>, pos |-> 0, k |-> 0]
 Cu0 == [on |-> FALSE, b |-> <<>>, tsf |-> FALSE, D |-> <<0, 0, 0>>, del |-> <<0, 0, 0>>,
         rap |-> -1, disc |-> 0]
 
@@ -99,8 +104,8 @@ TReset == /\ IsEv("Reset") /\ mode = "idle"
           /\ mode' = Tr[l].mode
           /\ a' = T!AInit /\ cur' = Cur0 /\ sync' = TRUE
           /\ q' = <<>> /\ cu' = Cu0 /\ got' = <<>>
-          /\ enc' = IF Tr[l].mode = "E" THEN [pid |-> Tr[l].pid, cc |-> Tr[l].cc, pids |-> {}]
-                                         ELSE [pid |-> 0, cc |-> 0, pids |-> {}]
+          /\ enc' = IF Tr[l].mode = "E" THEN [Enc0 EXCEPT !.pid = Tr[l].pid, !.cc = Tr[l].cc, !.al = (Tr[l].al = 1)]
+                                         ELSE Enc0
 
 TPkt == /\ IsEv("Pkt") /\ mode \in {"D", "F"} /\ Closable
         /\ LET e  == Tr[l]
@@ -161,13 +166,18 @@ TPes == /\ IsEv("Pes") /\ mode = "P"
         /\ UNCHANGED <<mode, a, cur, sync, cu, got, enc>>
 
 TAu == /\ IsEv("Au") /\ mode \in {"Q", "E"}
-       /\ LET e == Tr[l] IN
-          /\ Len(e.b) > 0
-          /\ B(e.dtsf) => B(e.ptsf)
-          /\ q' = Append(q, UnitOf(e.b, B(e.ptsf), B(e.dtsf),
-                                   Low33(<<e.pts[1], e.pts[2], e.pts[3]>>),
-                                   Low33(<<e.dts[1], e.dts[2], e.dts[3]>>), e.rap, e.disc))
-       /\ UNCHANGED <<mode, a, cur, sync, cu, got, enc>>
+       /\ LET e == Tr[l]
+              u == UnitOf(e.b, B(e.ptsf), B(e.dtsf),
+                          Low33(<<e.pts[1], e.pts[2], e.pts[3]>>),
+                          Low33(<<e.dts[1], e.dts[2], e.dts[3]>>), e.rap, e.disc)
+          IN /\ Len(e.b) > 0
+             /\ B(e.dtsf) => B(e.ptsf)
+             /\ IF mode = "E" /\ ~enc.al
+                THEN /\ enc' = [enc EXCEPT !.allb = @ \o e.b, !.starts = Append(@, Len(enc.allb)),
+                                           !.us = Append(@, [u EXCEPT !.b = <<>>])]
+                     /\ q' = q
+                ELSE q' = Append(q, u) /\ enc' = enc
+       /\ UNCHANGED <<mode, a, cur, sync, cu, got>>
 
 \* a packet emitted by ts_encaps (reference parser)
 TTs == /\ IsEv("Ts") /\ mode = "E"
@@ -182,25 +192,41 @@ TTs == /\ IsEv("Ts") /\ mode = "E"
        /\ UNCHANGED <<mode, a, cur, sync, q, cu, got>>
 
 Complete == IF cu.on THEN got = cu.b ELSE TRUE
-TPOut == /\ IsEv("POut") /\ mode \in {"P", "Q", "E"} /\ sync
+DatesOK(e, u) ==
+    /\ (u.rap # -1 => e.rap = u.rap)
+    /\ (u.disc = 1 => e.disc = 1)
+    /\ IF u.tsf
+       THEN /\ e.dtsf = 1
+            /\ e.dts = <<u.D[1], u.D[2], u.D[3], 0>>
+            /\ Within60s(u.del) =>
+                 /\ e.delf = 1
+                 /\ e.del = <<u.del[1], u.del[2], u.del[3], 0>>
+       ELSE e.dtsf = 0
+TPOut == /\ IsEv("POut") /\ mode \in {"P", "Q", "E"} /\ sync /\ enc.al
          /\ LET e == Tr[l] IN
             IF B(e.start)
             THEN /\ Complete /\ Len(q) > 0
                  /\ LET u == Head(q) IN
                     /\ IsPrefix(e.b, u.b)
-                    /\ (u.rap # -1 => e.rap = u.rap)
-                    /\ (u.disc = 1 => e.disc = 1)
-                    /\ IF u.tsf
-                       THEN /\ e.dtsf = 1
-                            /\ e.dts = <<u.D[1], u.D[2], u.D[3], 0>>
-                            /\ Within60s(u.del) =>
-                                 /\ e.delf = 1
-                                 /\ e.del = <<u.del[1], u.del[2], u.del[3], 0>>
-                       ELSE e.dtsf = 0
+                    /\ DatesOK(e, u)
                     /\ cu' = u /\ q' = Tail(q) /\ got' = e.b
             ELSE /\ cu.on /\ IsPrefix(got \o e.b, cu.b)
                  /\ got' = got \o e.b /\ UNCHANGED <<q, cu>>
          /\ UNCHANGED <<mode, a, cur, sync, enc>>
+\* access units not aligned with the PES packets: the octets come out as one stream, in order, nothing added; the
+\* k-th PES carries the dates of the k-th access unit and begins at most one TS payload (183 octets) before it
+TPOutN == /\ IsEv("POut") /\ mode = "E" /\ sync /\ ~enc.al
+          /\ LET e == Tr[l]
+                 n == Len(e.b)
+             IN /\ enc.pos + n <= Len(enc.allb)
+                /\ SubSeq(enc.allb, enc.pos + 1, enc.pos + n) = e.b
+                /\ IF B(e.start)
+                   THEN /\ enc.k < Len(enc.us)
+                        /\ DatesOK(e, enc.us[enc.k + 1])
+                        /\ enc.pos <= enc.starts[enc.k + 1] /\ enc.starts[enc.k + 1] - enc.pos <= 183
+                        /\ enc' = [enc EXCEPT !.pos = @ + n, !.k = @ + 1]
+                   ELSE enc.k > 0 /\ enc' = [enc EXCEPT !.pos = @ + n]
+          /\ UNCHANGED <<mode, a, cur, sync, q, cu, got>>
 
 \* after corrupt input, and in mode X: anything but a sanitizer report
 TAny == /\ \/ IsEv("POut") /\ (mode = "X" \/ ~sync)
@@ -217,12 +243,13 @@ TBroken == /\ IsEv("Broken") /\ (mode = "X" \/ ~sync)
 TEnd == /\ IsEv("End") /\ mode # "idle"
         /\ (mode \in {"D", "F"} => Closable)
         /\ ((mode \in {"P", "Q", "E"} /\ sync) => Complete /\ q = <<>>)
+        /\ ((mode = "E" /\ sync /\ ~enc.al) => enc.pos = Len(enc.allb) /\ enc.k = Len(enc.us))
         /\ mode' = "idle"
         /\ UNCHANGED <<a, cur, sync, q, cu, got, enc>>
 
 TInit == /\ l = 1 /\ mode = "idle" /\ a = T!AInit /\ cur = Cur0 /\ sync = TRUE
-         /\ q = <<>> /\ cu = Cu0 /\ got = <<>> /\ enc = [pid |-> 0, cc |-> 0, pids |-> {}]
-TNext == TReset \/ TPkt \/ TPid \/ TRaw \/ TOut \/ TPes \/ TAu \/ TTs \/ TPOut \/ TAny \/ TBroken \/ TEnd
+         /\ q = <<>> /\ cu = Cu0 /\ got = <<>> /\ enc = Enc0
+TNext == TReset \/ TPkt \/ TPid \/ TRaw \/ TOut \/ TPes \/ TAu \/ TTs \/ TPOut \/ TPOutN \/ TAny \/ TBroken \/ TEnd
 TSpec == TInit /\ [][TNext]_vars
 
 \* property invariants, evaluated in every state of every execution
